@@ -54,6 +54,16 @@ Section ADWIN.
     {| an := an s; arows := compress (ad_m c) 0 None rows1;
        atotal := atotal s + v; avar := avar s + incr; awidth := w; adrift := adrift s |}.
 
+  (** remove the trailing empty rows (with m = 1 merging leaves intermediate rows empty) *)
+  Fixpoint strip_tail (rows : list row) : list row :=
+    match rows with
+    | [] => []
+    | r :: rest => match strip_tail rest with
+                   | [] => match r with [] => [] | _ => [r] end
+                   | rest' => r :: rest'
+                   end
+    end.
+
   (** [_delete_bucket]: drop the oldest bucket (first of the last row) *)
   Definition adwin_delete (s : adwin_st) : adwin_st :=
     let lvl := (Z.of_nat (length (arows s)) - 1)%Z in
@@ -67,7 +77,7 @@ Section ADWIN.
     let incr := snd b + ((ofZ (size * w) * (bm - wm)) * (bm - wm)) / ofZ (size + w) in
     let lastrow' := tl lastrow in
     let rows' := match lastrow' with
-                 | [] => removelast (arows s)
+                 | [] => strip_tail (removelast (arows s))
                  | _ => removelast (arows s) ++ [lastrow']
                  end in
     {| an := an s; arows := rows'; atotal := tot; avar := avar s - incr; awidth := w; adrift := adrift s |}.
